@@ -339,7 +339,7 @@ func vC14PdRunInBubble(t *testing.T, c *vh.Case, sc vC14PdScn, target int) *vC14
 
 func TestVerif_C14_provider_dual(t *testing.T) {
 	vh.Run(t, vh.Spec{Prop: "C14", Unit: "provider_dual", Quick: 16, Thorough: 500, CostMs: 350,
-		Rule: "PRNG provider/dual.SweepingProvider over a dual.DHT on one fake host (10-40 simulated peers half public / half private, 16% failing, RPC latency 3-200 ms; internal or external keystore; reprovide interval 2 min or 1 h) with 2-6 StartProviding/ProvideOnce/StopProviding/Clear/RefreshSchedule calls; boundary events (wire log, API calls) counted after the providers' initial probes; reference run closes after everything, re-runs Close at 2 events on a provider goroutine's stack and 2 PRNG indices (thorough: up to 48); non-trivial = Close with RPCs in flight",
+		Rule:    "PRNG provider/dual.SweepingProvider over a dual.DHT on one fake host (10-40 simulated peers half public / half private, 16% failing, RPC latency 3-200 ms; internal or external keystore; reprovide interval 2 min or 1 h) with 2-6 StartProviding/ProvideOnce/StopProviding/Clear/RefreshSchedule calls; boundary events (wire log, API calls) counted after the providers' initial probes; reference run closes after everything, re-runs Close at 2 events on a provider goroutine's stack and 2 PRNG indices (thorough: up to 48); non-trivial = Close with RPCs in flight",
 		Clauses: []string{"baseline-clean", "close-returns-in-bound", "no-goroutine-after-close", "close-again-returns", "api-no-panic", "dht-left-running", "no-goroutine-after-2min"}},
 		func(c *vh.Case) {
 			r := c.R
